@@ -141,12 +141,13 @@ def explore_orders(prog, n, cls_type, first=None):
                 bodies[k] = b
                 it.call(sc, [Ptr(cases, ()), k, b])
             # duplicate must be refused
-            dup = None
-            try:
-                it.call(sc, [Ptr(cases, ()), perm[0], bodies[perm[0]]])
-                dup = 'accepted'
-            except Terminal as t:
-                dup = 'diagnosed'
+            dup = 'diagnosed'
+            if perm:
+                try:
+                    it.call(sc, [Ptr(cases, ()), perm[0], bodies[perm[0]]])
+                    dup = 'accepted'
+                except Terminal as t:
+                    dup = 'diagnosed'
             shape = tree_shape(it, cases.f[('root',)])
             # emit the ladder
             f = Obj('func', 'heap')
@@ -169,7 +170,7 @@ def explore_orders(prog, n, cls_type, first=None):
         tag = 'order %s' % (list(perm),)
         for p in pr: probs.append(('C15.a', tag, p))
         if inorder != sorted(perm): probs.append(('C15.a', tag, 'tree holds keys %s, inserted %s' % (inorder, sorted(perm))))
-        if dup != 'diagnosed': probs.append(('C15.c', tag, 'a second case label with value %s is accepted' % perm[0]))
+        if dup != 'diagnosed': probs.append(('C15.c', tag, 'a second case label with value %s is accepted' % (perm[0] if perm else None)))
         want_ops = {'w': {'ICEQW', 'ICULTW'}, 'l': {'ICEQL', 'ICULTL'}}['w' if cls_type in ('int', 'uint') else 'l']
         if not set(ops) <= want_ops: probs.append(('C15.b', tag, 'compare opcodes %s for a controlling type of class %s' % (ops, cls_type)))
         for probe, (where, depth) in res.items():
@@ -190,7 +191,7 @@ def rule_orders(chk, prog, tier):
     rb = chk.rule('C15.b', 'emitted compare ladder: every probe value (each key, each gap, both ends) reaches exactly its case body or the default; compare opcodes have the controlling type\'s class; search depth <= tree height', floor=800)
     rc = chk.rule('C15.c', 'duplicate case constants, duplicate defaults and case/default outside a switch are diagnosed', floor=800)
     maxn = 7 if tier == 'thorough' else 6
-    jobs = [(n, 'int', None) for n in range(1, 5)] + [(n, 'ulong', None) for n in range(1, 5)]
+    jobs = [(n, 'int', None) for n in range(0, 5)] + [(n, 'ulong', None) for n in range(0, 5)]      # n = 0: a switch with only a default label
     for n in range(5, maxn + 1):
         jobs += [(n, 'int', i) for i in range(n)]
     def work(job):
